@@ -72,6 +72,9 @@ def decodeVal : Nat → List String → Option (Val × List String)
     else if t == "x0" || t == "x1" then do
       let (v, rest) ← decodeVal fuel rest
       pure (.boxed v (t == "x1"), rest)
+    else if tag == "F" then do
+      let id ← natOf arg
+      pure (.func id, rest)
     else if tag == "g" then do
       let txt ← Bytes.ofHex arg
       let (v, rest) ← decodeVal fuel rest
